@@ -367,6 +367,21 @@ def _exit(r, p, cg):
                     r.fail("C14.exit", kk, "status read before the final check_rules", ar.loc(n))
             else:
                 r.fail("C14.exit", kk, "normal path returns status %s, not the error-type violation flag of the final check" % norm(val), ar.loc(n))
+    # the flag returned as status must describe ALL phases analysed: it is set from error-type counts and stays set
+    from . import c13 as _c13
+
+    chk_fi = p.function("vsg.rule_list:rule_list.check_rules")
+    scratch = Result("C13")
+    try:
+        cph, csb = _c13._loop_info(scratch, chk_fi, "check")
+        _c13._gate(scratch, p, chk_fi, cph, csb)
+    except AnalysisError:
+        raise
+    relevant = [f for f in scratch.findings if any(t in f.key for t in ("violations-not-sticky", "violations-from-failures", "failure-count", "violations-reset-in-loop"))]
+    for f in relevant:
+        r.fail("C14.exit", f.key, "exit status source rule_list.violations: " + f.message, f.loc)
+    if not relevant:
+        r.ok("C14.exit", chk_fi.key + ":status-flag", "rule_list.violations is set from error-type violation counts and is never cleared once a phase failed")
     # report and status from the same check: report_violations dominated by check_rules and clear_violations
     for n in walk_function(ar.node):
         if isinstance(n, ast.Call) and callee_text(n) in ("oRules.report_violations", "oRules.extract_junit_testcase", "oRules.extract_violation_dictionary"):
